@@ -146,6 +146,22 @@ P = {
    note=TB + " XML tokenisation, attribute parsing and zip are outside the model (event level); str::parse::<u32> is modelled as parse_u32.",
    technique="Coq proof (A1 arithmetic, induction over event lists and region lists, reduction to window_spec) + extracted-model correspondence",
    design_ref="5/C17"),
+ "C20": dict(claimed=True,
+   text="Coq theorems over Password.v/PasswordCfb.v: C20_filepass_is_password (+ _workbook/_book through the stream lookup of Xls::new): "
+        "for any leading records with their CONTINUEs that the globals loop passes over, any FILEPASS body (any encryption type) and "
+        "any well-framed records after it the result is Err Password; C20_encrypted_ooxml_is_password(_bytes): a directory chain with "
+        "an EncryptedPackage entry at any index (any other entries, both sector sizes, any bytes behind the name terminator) is "
+        "reported; C20_ods_encryption_data_is_password and C20_ods_manifest_spec (Password exactly when some entry declares "
+        "encryption-data, any number of entries, any prefix spelling); and the converse C20_no_false_positive_{xls,xls_real,ooxml,"
+        "ooxml_dirs,ods}: no FILEPASS / a zip signature (Header::from_reader rejects PK\\x03\\x04) / no encryption-data never give "
+        "Password. Tie: generated encrypted containers (random ciphertext and layouts), FILEPASS type 0/1 at several positions in "
+        "Workbook and Book streams, manifests with one/many encrypted entries, against every unencrypted workbook of the other "
+        "generators and all fixtures, through Xlsx::new, Xlsb::new, Xls::new, Ods::new.",
+   note=TB + " Partial: the step from file bytes to the directory chain for ANY container layout is C13's cfb_layout_independent (interface "
+        "lemma stated in notes/C20.md); the FORMAT/BoundSheet8/Lbl/ExternSheet/SST arms of the xls globals loop are an abstract "
+        "parameter `interp`; VbaProject::from_cfb, zip and quick-xml are outside the model.",
+   technique="Coq proof (induction over record lists / event lists / directory entries) + extracted-model correspondence on generated containers",
+   design_ref="5/C20"),
 }
 REASON_TODO = "not claimed yet: model and theorems for this property are still being built (see DESIGN.md section 9)"
 
